@@ -20,7 +20,7 @@ CASE_TIMEOUT = 300
 
 KINDS = ["complex_dtype", "nontext_name", "duplicate_name", "none_in_required", "bad_object_encoding", "append_diff_columns",
          "append_diff_dtype", "append_diff_scheme", "append_diff_partitioning", "append_unencodable_value", "unknown_column_read",
-         "unknown_column_filter", "unknown_codec", "bad_times", "append_extra_column", "append_missing_column"]
+         "unknown_column_filter", "unknown_codec", "bad_times", "append_extra_column", "append_missing_column", "na_in_required_int"]
 STATES = ["simple", "hive", "hive_part"]
 
 
@@ -30,13 +30,13 @@ def gen_cases(tier, seed):
     for kind, pos, rgpos, state, nrg in itertools.product(KINDS, ["first", "middle", "last"], ["first", "later"], STATES, [1, 3]):
         k += 1
         for mode in (["append"] if kind.startswith(("append_", "unknown_column")) else ["append", "rewrite"]):
-            if tier == "quick" and (k + len(mode)) % 2 and kind not in ("append_unencodable_value", "none_in_required"):
+            if tier == "quick" and (k + len(mode)) % 2 and kind not in ("append_unencodable_value", "none_in_required", "na_in_required_int"):
                 continue
             cases.append({"id": "G/%s/%s/%s/%s/%d/%s" % (kind, pos, rgpos, state, nrg, mode), "kind": kind, "pos": pos, "rgpos": rgpos,
                           "state": state, "nrg": nrg, "mode": mode, "seed": 1800 + k})
     # rejections that happen late (during conversion / encoding of the offending column or row group), with frames large enough that
     # the aborted operation has already written more bytes than the old footer is long
-    for kind, pos, rgpos, state in itertools.product(["append_unencodable_value", "none_in_required", "bad_object_encoding", "complex_dtype", "bad_times"],
+    for kind, pos, rgpos, state in itertools.product(["append_unencodable_value", "none_in_required", "bad_object_encoding", "complex_dtype", "bad_times", "na_in_required_int"],
                                                      ["first", "middle", "last"], ["first", "later"], STATES):
         k += 1
         for rows in ([3000] if tier == "quick" else [400, 3000, 20000]):
@@ -86,6 +86,11 @@ def make_bad(case, df, rng):
         bad["s"] = bad["s"].astype(object)
         bad.loc[row, "s"] = None
         kw["has_nulls"] = False
+    elif kind == "na_in_required_int":
+        # a missing value in a masked-integer column that the dataset declares non-nullable
+        bad["m"] = bad["m"].copy()
+        bad.loc[row, "m"] = pd.NA
+        kw["has_nulls"] = case.get("has_nulls_mode", False)
     elif kind == "bad_object_encoding":
         bad["s"] = bad["s"].astype(object)
         kw["object_encoding"] = {"s": "int"}
@@ -130,6 +135,10 @@ def run_case(case):
     scheme = "simple" if state == "simple" else "hive"
     n = case.get("rows", 12)
     df0 = base_frame(rng, n, 0, part, case["pos"])
+    if case["kind"] == "na_in_required_int":
+        mdt = ["Int64", "Int32", "UInt16", "Int8"][case["seed"] % 4]
+        case = dict(case, has_nulls_mode=[False, "infer"][(case["seed"] // 4) % 2])
+        df0.insert({"first": 1, "middle": 2, "last": len(df0.columns)}[case["pos"]], "m", pd.array(np.arange(n) % 100, dtype=mdt))
     path = C.fresh_path(".parq" if scheme == "simple" else "")
     counters = {}
     res = {"features": [], "nontrivial": False, "failures": [], "counters": counters}
@@ -138,15 +147,20 @@ def run_case(case):
         base_kw["partition_on"] = ["p"]
     if case["nrg"] > 1:
         base_kw["row_group_offsets"] = max(1, n // case["nrg"])
+    if case["kind"] == "na_in_required_int":
+        base_kw["has_nulls"] = case["has_nulls_mode"]
     try:
         fastparquet.write(path, df0, **base_kw)
         before_tab = fastparquet.ParquetFile(path).to_pandas(index=False)
+        before_schema = list(fastparquet.ParquetFile(path).schema.schema_elements)
         before_files = fsmon.snapshot(path)
         before_bytes = open(path, "rb").read() if os.path.isfile(path) else None
         ctx = {("rejection" if k == "kind" else k): case[k] for k in ("kind", "pos", "rgpos", "state", "nrg", "mode")}
         kind = case["kind"]
         n_new = case.get("new_rows", n)
         new = base_frame(rng, n_new, n, part, case["pos"])
+        if kind == "na_in_required_int":
+            new.insert(list(df0.columns).index("m"), "m", pd.array(np.arange(n_new) % 100, dtype=df0["m"].dtype))
         raised = None
         returned = False
         with fsmon.Audit(path) as aud:
@@ -181,6 +195,21 @@ def run_case(case):
         if returned:
             counters["accepted"] = 1
             counters["accepted:" + kind] = 1
+            if kind in ("none_in_required", "na_in_required_int"):
+                # the statement names this rejection: a missing value in a column DECLARED non-nullable.  The premise is checked, not
+                # assumed: for an append the existing dataset's schema must say REQUIRED for that column
+                col = "s" if kind == "none_in_required" else "m"
+                declared_required = None
+                try:
+                    se = [e for e in before_schema if e.name == col]
+                    declared_required = bool(se) and se[0].repetition_type == 0
+                except Exception:
+                    pass
+                if case["mode"] == "rewrite":
+                    declared_required = True
+                counters["premise_checked"] = counters.get("premise_checked", 0) + 1
+                if declared_required:
+                    res["failures"].append({"kind": "accepted_although_column_declared_non_nullable", "column": col, **ctx})
         else:
             counters["rejected"] = 1
             counters["rejected:" + type(raised).__name__] = 1
